@@ -172,6 +172,7 @@ type Machine struct {
 	havocSeq         int
 	pendAux          uint64
 	pendAuxSet       bool
+	ufLastNonEmpty   map[int]bool
 }
 
 type pathEnd struct{ why string }
@@ -197,6 +198,13 @@ func NewMachine(L *Loaded, H *Harness, pool *WorkPool) (*Machine, error) {
 	m.stubFns = map[string]*ssa.Function{}
 	for callee, hf := range H.Stubs {
 		pkg := H.Fn.Pkg
+		if i := strings.Index(hf, "."); i > 0 {
+			pkg = L.Pkgs[kitMod+"/"+hf[:i]]
+			hf = hf[i+1:]
+			if pkg == nil {
+				return nil, fmt.Errorf("stub package for %s not loaded", callee)
+			}
+		}
 		f := pkg.Func(hf)
 		if f == nil {
 			return nil, fmt.Errorf("stub function %s not found in %s", hf, pkg.Pkg.Path())
